@@ -796,6 +796,46 @@ def eval_poly(p, assign):
     return tot
 
 
+def arith_assign(env, lang='c'):
+    """assign callable for eval_poly/eval_formula that gives arithmetic atoms their integer meaning over the symbol
+    values in env: truncating / flooring division and modulus, comparisons (0/1), bit operations, conditionals."""
+    def tdiv(a, b):
+        q = abs(a) // abs(b)
+        return q if (a >= 0) == (b >= 0) else -q
+
+    def val(key):
+        return eval_poly(Poly(dict(key)), assign)
+
+    def assign(a):
+        k = a[0]
+        if k == 'sym':
+            return env.get(a[1])
+        if k in ('tdiv', 'fdiv', 'div', 'tmod', 'fmod', 'mod'):
+            x, y = val(a[1]), val(a[2])
+            if y == 0:
+                return None
+            if k == 'tdiv' or (k == 'div' and lang == 'c'):
+                return tdiv(x, y)
+            if k in ('fdiv', 'div'):
+                return x // y
+            if k == 'tmod' or (k == 'mod' and lang == 'c'):
+                return x - tdiv(x, y) * y
+            return x % y
+        if k == 'cmp':
+            x, y = val(a[2]), val(a[3])
+            return int({'<': x < y, '<=': x <= y, '>': x > y, '>=': x >= y, '==': x == y, '!=': x != y,
+                        '&&': bool(x) and bool(y), '||': bool(x) or bool(y)}[a[1]])
+        if k == 'not':
+            return int(not val(a[1]))
+        if k in ('and', 'or', 'xor'):
+            x, y = val(a[1]), val(a[2])
+            return x & y if k == 'and' else x | y if k == 'or' else x ^ y
+        if k == 'cond':
+            return val(a[2]) if val(a[1]) else val(a[3])
+        return None
+    return assign
+
+
 def eval_formula(f, assign):
     k = f[0]
     if k == 'true':
